@@ -113,6 +113,14 @@ type e1State struct {
 
 func (st *e1State) val() int { st.next++; return st.next }
 
+// valz: now and then the zero value (a nil interface in Cache, 0 in CacheOf) — a value like any other.
+func (st *e1State) valz(rt *rapid.T) int {
+	if irange(rt, 0, 11, "zeroValue") == 0 {
+		return 0
+	}
+	return st.val()
+}
+
 func (st *e1State) genOp(rt *rapid.T) model.Op {
 	m := st.m
 	var o model.Op
@@ -126,11 +134,11 @@ func (st *e1State) genOp(rt *rapid.T) model.Op {
 	}
 	switch o.K {
 	case model.CSet, model.CGetOrSet, model.CGetAndSet, model.CGetOrCompute:
-		o.Val, o.D = st.val(), ttl()
+		o.Val, o.D = st.valz(rt), ttl()
 	case model.CSetDefault, model.CSetForever:
-		o.Val = st.val()
+		o.Val = st.valz(rt)
 	case model.CCompute:
-		o.Val, o.D = st.val(), ttl()
+		o.Val, o.D = st.valz(rt), ttl()
 		o.Fn = uint8(irange(rt, 0, 3, "fn"))
 	case model.CGetAndRefresh:
 		o.D = ttl()
